@@ -330,6 +330,39 @@ func c08Run(c *core.Ctx) {
 			c.Tick()
 		}
 	}
+	// every octet length 81..2100 (thorough ..8300) and around 4096, 8192, 16 384, 65 535 for every algorithm and both
+	// operations with one parameter tuple (length preservation, involution, short prefixes, 4-octet MAC, no panic):
+	// implementation-internal size thresholds sit at lengths no boundary alphabet contains
+	{
+		hi := 2100
+		if c.Thorough() {
+			hi = 8300
+		}
+		var lens []int
+		for l := top + 1; l <= hi; l++ {
+			lens = append(lens, l)
+		}
+		for _, b := range []int{4096, 8192, 16384, 65535} {
+			for d := -6; d <= 20; d++ {
+				if b+d > hi && b+d <= 65535 {
+					lens = append(lens, b+d)
+				}
+			}
+		}
+		for li, l := range lens {
+			if !c.Mine(li) {
+				continue
+			}
+			if li%32 == 0 {
+				c.Tick()
+			}
+			for alg := 0; alg <= 3; alg++ {
+				for _, op := range []string{"encrypt", "mac"} {
+					run(c08Case{Op: op, Alg: alg, Bearer: 9, Dir: l & 1, Key: k, Count: 0x00A1B2C3, Payload: hex.EncodeToString(patPayload(2, l))})
+				}
+			}
+		}
+	}
 	// history independence on every valid triple
 	u = 0
 	for alg := 1; alg <= 3; alg++ {
@@ -386,7 +419,7 @@ func init() {
 		ID: "C08", Level: "exploration", Run: c08Run,
 		Shards: func(string) int { return 16 },
 		Rule: func(tier string) string {
-			return "all 256 algorithm identities x 256 bearers x 256 directions (2^24 parameter triples) through NASEncrypt and NASMacCalculate with payload lengths {0,1,5} and nil on the boundary rows; for the 4x32x2 valid triples every payload length 0..80 (thorough 0..300) and keys/counts from the deviation alphabets: length preservation, involution, prefix stability (every prefix length at the longest payload of each parameter tuple, boundary prefixes elsewhere), keystream independence across plaintexts, NEA0/NIA0 behaviour, errors leaving the payload untouched, 4-octet MACs, arguments unmodified, no panic, results independent of earlier calls with the same parameters and of what the caller does with earlier results. A case is distinct by (operation, algorithm, bearer, direction, key, count, payload). Mixed-call histories: all ordered pairs (C06/C07: and a-b-a triples; thorough: all triples) over an alphabet of 66 calls — ciphering and integrity x algorithm 1..3 x wrapper/direct x 0, 1, 16, 33 octets with non-zero COUNT, bearer and direction, plus the refused calls (NULL and unknown algorithm, bearer 32, direction 2, nil payload) — every judged call compared with the standard function (C06/C07) resp. the involution and prefix laws checked across the interleaved call (C08)."
+			return "all 256 algorithm identities x 256 bearers x 256 directions (2^24 parameter triples) through NASEncrypt and NASMacCalculate with payload lengths {0,1,5} and nil on the boundary rows; for the 4x32x2 valid triples every payload length 0..80 (thorough 0..300), every octet length up to 2100 (thorough 8300) and around 4096 / 8192 / 16 384 / 65 535 with one parameter tuple per algorithm and operation and keys/counts from the deviation alphabets: length preservation, involution, prefix stability (every prefix length at the longest payload of each parameter tuple, boundary prefixes elsewhere), keystream independence across plaintexts, NEA0/NIA0 behaviour, errors leaving the payload untouched, 4-octet MACs, arguments unmodified, no panic, results independent of earlier calls with the same parameters and of what the caller does with earlier results. A case is distinct by (operation, algorithm, bearer, direction, key, count, payload). Mixed-call histories: all ordered pairs (C06/C07: and a-b-a triples; thorough: all triples) over an alphabet of 66 calls — ciphering and integrity x algorithm 1..3 x wrapper/direct x 0, 1, 16, 33 octets with non-zero COUNT, bearer and direction, plus the refused calls (NULL and unknown algorithm, bearer 32, direction 2, nil payload) — every judged call compared with the standard function (C06/C07) resp. the involution and prefix laws checked across the interleaved call (C08)."
 		},
 		Assumptions: []string{"keys and counts from the structured alphabets of C06"},
 		Finish:      finishDistinct("distinct by (operation, algorithm, bearer, direction, key, count, payload); non-trivial = valid parameters with a real algorithm (1..3) and a non-empty payload, i.e. the laws are actually exercised"),
